@@ -27,6 +27,12 @@ RULE = ("Hypothesis draws TWO configurations (depth 1-6 x width 1-4 with depth*w
 ASSUMPTIONS = ["layout as described in README.md 'Working with objects' / hashstore.yaml comments"]
 
 
+# namespaces that are not plain YAML scalars: the configuration file must still record the exact string (quoting is the
+# writer's business), otherwise another implementation computes other document names
+YAML_HOSTILE_NS = ["https://ns.example/v2 #sysmeta", "ns: v2", "@ns", "2.0", "yes", "null", "ns:", "'quoted'", "[x]", "{a}", "- x",
+                   "0x1F", "1e3", "%TAG", "!x", "&anchor", "*alias", "|", "> folded", "urn:\u00fc\u20ac"]
+
+
 def examples(tier):
     return 500 if tier == "quick" else 20000
 
@@ -34,7 +40,7 @@ def examples(tier):
 def _cfg():
     return st.builds(lambda a, d, w, n: {"algo": a, "depth": d, "width": w, "ns": n},
                      st.sampled_from(sorted(common.STORE_ALGOS)), st.integers(1, 6), st.integers(1, 4),
-                     st.sampled_from([common.DEFAULT_NS, "http://ns.example/v2"])) \
+                     st.sampled_from([common.DEFAULT_NS, "http://ns.example/v2", common.DEFAULT_NS] + YAML_HOSTILE_NS)) \
         .filter(lambda c: c["depth"] * c["width"] <= 24)
 
 
@@ -70,8 +76,10 @@ def strategy(tier):
 
 def _script(store_factory, ids, fmts, files):
     """ids[0] is (often) a suffix of ids[1]; ids[3] extends ids[1].  ids[0], ids[1], ids[3] share content X."""
-    s = store_factory()
-    outs = []
+    outs = [call(store_factory)]
+    if not is_ok(outs[0]):
+        return outs
+    s = outs[0][1]
     outs.append(call(s.store_object, ids[0], files[0]))
     outs.append(call(s.store_object, ids[1], files[0]))
     outs.append(call(s.store_object, ids[2], files[1]))
@@ -79,7 +87,10 @@ def _script(store_factory, ids, fmts, files):
     outs.append(call(s.store_metadata, ids[0], files[2], fmts[0]))
     outs.append(call(s.store_metadata, ids[0], files[3]))
     outs.append(call(s.store_metadata, ids[1], files[3]))
-    s = store_factory()
+    outs.append(call(store_factory))     # a reopen in the middle of the script
+    if not is_ok(outs[-1]):
+        return outs
+    s = outs[-1][1]
     outs.append(call(s.store_metadata, ids[1], files[2], fmts[1]))
     outs.append(call(s.store_metadata, ids[2], files[2], fmts[0]))
     outs.append(call(s.delete_object, ids[2]))
@@ -122,6 +133,13 @@ def run_case(case, ctx):
     roots = [os.path.join(work, f"store{i}") for i in range(2)]
     for i in case["order"]:
         cfg, root = cfgs[i], roots[i]
+        o = call(common.make_store, root, cfg)
+        if not is_ok(o):
+            if o[1] == "RuntimeError" and "harness" in o[2]:
+                raise o[3]
+            ctx.violation("store-creation-failed", f"cfg {cfg.to_json()}: creating / opening the store raised {o[1]}: {o[2][:200]}",
+                          {"err": o[1]})
+            continue
         outs = _script(lambda: common.make_store(root, cfg), ids, fmts, files)
         bad = [(n, o[1], o[2][:120]) for n, o in enumerate(outs) if not is_ok(o)]
         if bad:
